@@ -8,7 +8,9 @@
 Require Import List Arith Bool NArith Lia.
 Import ListNotations.
 
-Inductive p_kind := PPipe | PSock.
+Inductive p_kind := PPipe | PSock
+  | PRef.   (* a pipe read end whose registration the epoll interface refuses (epoll_ctl fails, as for a regular
+               file or a stale fd); SelectPoller has no kernel registration step and treats it like any pipe *)
 Inductive p_act := PAAddR (d : nat) | PAAddW (d : nat) | PARemR (d : nat) | PARemW (d : nat).
 
 Record p_dcfg := {
@@ -23,6 +25,8 @@ Record p_dcfg := {
 Definition p_cfg := list p_dcfg.
 Definition p_dflt : p_dcfg := Build_p_dcfg PPipe false false 0 [] [] [].
 Definition p_get (c : p_cfg) (d : nat) : p_dcfg := nth d c p_dflt.
+Definition p_refused (c : p_cfg) (d : nat) : bool :=
+  match pc_kind (p_get c d) with PRef => true | _ => false end.
 
 Inductive p_op :=
 | POAddR (d : nat) | POAddW (d : nat) | PORemR (d : nat) | PORemW (d : nat)
@@ -132,8 +136,9 @@ Definition p_ep_add_r (c : p_cfg) (e : p_ep) (d : nat) : p_ep * bool :=
   let o := ep_obj e1 id in
   if e_r o then (e1, false)
   else if pc_conn (p_get c d)
-       then (p_ep_set_obj e1 id (Build_p_ed true (e_w o) (e_rd o) (e_wd o) (Some d) (pc_doc (p_get c d))), true)
-       else (p_ep_set_obj e1 id (Build_p_ed true (e_w o) (Some d) (e_wd o) (e_cd o) (e_doc o)), true).
+       (* AddEvent / UpdateEvent: if epoll_ctl fails the function returns false but the book-keeping stays *)
+       then (p_ep_set_obj e1 id (Build_p_ed true (e_w o) (e_rd o) (e_wd o) (Some d) (pc_doc (p_get c d))), negb (p_refused c d))
+       else (p_ep_set_obj e1 id (Build_p_ed true (e_w o) (Some d) (e_wd o) (e_cd o) (e_doc o)), negb (p_refused c d)).
 
 Definition p_ep_add_w (e : p_ep) (d : nat) : p_ep * bool :=
   let '(e1, id, _) := p_ep_lookup e d in
@@ -246,7 +251,7 @@ Definition p_touch (s : p_st) (d : nat) : p_st := if st_del s d then p_set_haz s
 
 (* ================= kernel model (explicit assumption, validated by the real-fd runs) ================= *)
 Definition p_is_sock (c : p_cfg) (d : nat) : bool :=
-  match pc_kind (p_get c d) with PSock => true | PPipe => false end.
+  match pc_kind (p_get c d) with PSock => true | _ => false end.
 Definition p_has_data (s : p_st) (d : nat) : bool := match st_pend s d with [] => false | _ => true end.
 (* select(): readable = data queued or EOF/hang-up; writable = a socket (buffers never fill here) *)
 Definition p_readable (s : p_st) (d : nat) : bool := p_has_data s d || st_closed s d.
@@ -258,7 +263,8 @@ Record p_flags := { f_in : bool; f_out : bool; f_hup : bool }.   (* f_hup = EPOL
    socketpair end:  EPOLLIN iff data queued or peer closed; EPOLLRDHUP (if asked) and EPOLLHUP iff peer closed;
                     EPOLLOUT iff asked *)
 Definition p_ep_flags (c : p_cfg) (s : p_st) (o : p_ed) (d : nat) : p_flags :=
-  if p_is_sock c d
+  if p_refused c d then Build_p_flags false false false       (* never handed to the kernel: never reported *)
+  else if p_is_sock c d
   then Build_p_flags (e_r o && p_readable s d) (e_w o) (st_closed s d)
   else Build_p_flags (e_r o && p_has_data s d) false (st_closed s d).
 Definition p_flag_any (f : p_flags) : bool := f_in f || f_out f || f_hup f.
